@@ -141,7 +141,21 @@ def module_src(expect_tag, expected, decls_before, call, decls_after, scope='top
         return head + imp + decls_before + call + '\n' + decls_after
     # locally scoped declarations shadowing a different top-level one
     ind = lambda s: ''.join('  ' + l + '\n' for l in s.splitlines())
-    return head + imp + shadow + 'function scope() {{\n' + ind(decls_before) + '  ' + call + '\n' + ind(decls_after) + '}}\n'
+    if scope == 'local':
+        return head + imp + shadow + 'function scope() {{\n' + ind(decls_before) + '  ' + call + '\n' + ind(decls_after) + '}}\n'
+    # the same with ordinary statements standing among the local declarations
+    lines = decls_before.splitlines()
+    if scope == 'local-stmt':        # a call leads the body
+        body = '  setupScope();\n' + ind(decls_before) + '  ' + call + '\n' + ind(decls_after)
+    elif scope == 'local-mid':       # a statement after the first declaration line, a `let` before it
+        body = '  let local = 1;\n' + ind('\n'.join(lines[:1])) + '  if (local) setupScope();\n' + ind('\n'.join(lines[1:])) + '  ' + call + '\n' + ind(decls_after)
+    elif scope == 'local-directive':
+        body = '  "use strict";\n' + ind(decls_before) + '  ' + call + '\n' + ind(decls_after)
+    elif scope == 'block':           # a block statement of the module, after an expression statement
+        return head + imp + shadow + 'declare function setupScope(): void;\n{{\n  setupScope();\n' + ind(decls_before) + '  ' + call + '\n' + ind(decls_after) + '}}\n'
+    else:
+        raise ValueError(scope)
+    return head + imp + shadow + 'declare function setupScope(): void;\nfunction scope() {{\n' + body + '}}\n'
 
 
 def read_expect(env, tag):
